@@ -193,6 +193,8 @@ class Aggregate(object):
         self.probes = {}
         self.ref_wall = 0.0
         self.fd_leaks = 0
+        self.addr_reused = 0
+        self.addr_steered = 0
 
     def add(self, res):
         c = res["cov"]
@@ -235,6 +237,8 @@ class Aggregate(object):
         self.ref_wall += res.get("ref_wall", 0.0)
         for tail in res.get("tails", []):
             self.alloc_hits += tail.get("alloc_hits", 0)
+            self.addr_reused += tail.get("addr_reused", 0)
+            self.addr_steered += tail.get("addr_steered", 0)
             self.dep_total += tail.get("dep_total", 0)
             for k, v in tail.get("dep_names", {}).items():
                 self.dep_names[k] = self.dep_names.get(k, 0) + v
@@ -451,6 +455,7 @@ def write_evidence(prop, tier, seed, agg, wall, n_viol, reported, known_lines, h
         "faults_fired_where": agg.fired_where,
         "run_level_faults": agg.run_faults,
         "dirty_allocations_served": agg.alloc_hits,
+        "solver_addresses_reused": {"constructors_that_landed_on_a_released_solver_address": agg.addr_reused, "of_which_steered_by_the_simulator": agg.addr_steered},
         "seam_calls_observed": agg.dep_total,
         "seam_calls_by_name": dict(sorted(agg.dep_names.items(), key=lambda kv: -kv[1])[:25]),
         "oracle_counters": agg.stats,
